@@ -59,6 +59,7 @@ fn sweep_spec(orig_sel: u8) -> ProgSpec {
         strings: vec!["ab".into(), "c".into(), "".into()],
         raw_words: None,
         fit: 0,
+        spin: 0,
     }
 }
 
